@@ -18,7 +18,7 @@ T = {
  "C03": ("exploration", "generated send histories across 16-bit wraps (positioned and genuine 70k-215k datagram sessions), microsecond-polling applications, sends before / after the session; wire-tap oracle (nonce set, independent AES-GCM open with 20-byte AAD, cleartext scan, clear datagrams = one hello each)",
          "Generated histories incl. sequence wrap, keep-alives, retransmissions; every emitted datagram is checked by an independent parser/decryptor.",
          "Non-decreasing clock and the 1/60 s send cap (the property's preconditions); quick tier positions seq counters near the wrap (white-box write, declared).", "3/C03"),
- "C04": ("exploration", "generated duplication/reordering/replay schedules in a virtual-time world; delivery-ledger (at most once) and snapshot-diff (only dropped+1) oracles",
+ "C04": ("exploration", "generated duplication/reordering/replay schedules in a virtual-time world (incl. replay of a recorded session into the next session of the same client object); delivery-ledger (at most once) and snapshot-diff (only dropped+1) oracles",
          "Generated network schedules and attacker replays at drawn lags against the real endpoints; at-most-once decided by a harness-side ledger.",
          "Lag between original and copy < 32767 datagrams (property precondition).", "3/C04"),
  "C05": ("exploration", "generated payload sizes (exhaustive boundary sets x MTU x API) under generated loss/dup/reorder then heal; bounded-liveness delivery ledger",
@@ -39,31 +39,31 @@ T = {
  "C10": ("exploration", "generated multi-client operation histories (Hypothesis lists: overlapping connects, reconnects, bursts, handler exceptions, kicks from handler events, shutdown, drawable token collisions) interpreted against the real server loop in lock-step; lifecycle automaton + accepted=>handled oracle",
          "Generated histories against the real UdpServerThread loop with a recording handler; a per-client-object automaton decides connect-once / messages / disconnect-once; silence is judged on the harness's own record of when a client process stopped.",
          "The receive thread and loop thread are serialised (lock-step); races between them are not explored.", "3/C10"),
- "C11": ("exploration", "generated hostile datagram streams (random, structured, bulk hellos, spoofed) through the datagram entry point interleaved with honest echo traffic; liveness/service/byte-count/block-list oracle",
+ "C11": ("exploration", "generated hostile datagram streams (random, structured, bulk hellos, spoofed) through the datagram entry point interleaved with honest echo traffic, plus an enumeration of the smallest usable MTUs; liveness/service/byte-count/block-list oracle",
          "Generated attack streams against the real entry point and loop; oracle observes thread liveness, honest echo latency, per-address byte counters and pool snapshots.",
          "CPU/memory cost of handshakes is invisible in virtual time and not claimed.", "3/C11"),
  "C12": ("exploration", "generated configurations / client and server setter orders / late interval changes / idle durations / cut instants (with stale copies arriving afterwards) in virtual time; emission-gap and timeout-window oracle computed from the wire tap",
          "Generated configurations with the property's precondition built in; hours of virtual idle time; oracle = gap windows on the wire tap and status-change instants.",
          "Client frame spacing <= server emission spacing (model soundness, see DESIGN 3/C05 S).", "3/C12"),
- "C13": ("exploration", "Hypothesis recursive value generation incl. width boundaries and user classes; type-strict normaliser round-trip + exact-consumption + concatenation oracle; out-of-domain refusal",
+ "C13": ("exploration", "Hypothesis recursive value generation incl. width boundaries and user classes (flat and derived); type-strict normaliser round-trip + exact-consumption + concatenation oracle over every encode/decode entry point (dumpb/loadb, stream, gzip, persistent); out-of-domain refusal",
          "Generated values over the whole supported grammar; oracle is an independent type-strict normaliser and stream-position accounting.",
          "Dict keys / set members drawn from hashable scalars that survive the tuple->list rule.", "3/C13"),
- "C14": ("exploration", "Hypothesis mutation of valid encodings + crafted length/type fields + coverage-guided Atheris fuzzing; in-target oracle: ordinary exception or well-typed value, line-event and allocation budgets linear in input size",
+ "C14": ("exploration", "Hypothesis mutation of valid encodings + crafted length/type fields + coverage-guided Atheris fuzzing; in-target oracle: ordinary exception or well-typed value, line-event, allocation and stream-read-volume budgets linear in input size",
          "Mutational and coverage-guided search over byte strings with a deterministic work counter and allocation peak as the bound oracle.",
          "Budgets are calibrated on valid encodings with a 10x margin.", "3/C14"),
  "C15": ("exploration", "Hypothesis generation of objects over every documented annotated shape; fromJson(toJson) / loads(dumps) identity + json.dumps acceptance",
          "Generated field values over all annotated shapes the documentation lists.",
          "Field values have their annotated types (property precondition).", "3/C15"),
- "C16": ("exploration", "exhaustive pattern x path enumeration against a reference matcher written from the documented grammar; registration-order and 404 checks",
+ "C16": ("exploration", "exhaustive pattern x path enumeration against a reference matcher written from the documented grammar; Hypothesis route tables (every registration order, growing tables, websocket routes, resource classes) with first-match / 404 oracle; differential between Router.dispatch and raw HTTP/1.1 requests through the protocol stack",
          "Finite pattern/path tables enumerated completely and compared with an independent reference matcher.",
          "Empty segments inside a +/* tail are unspecified by the grammar and skipped (counted).", "3/C16"),
  "C17": ("exploration", "exhaustive adversarial segment-alphabet enumeration + Hypothesis unicode + router-captured names; containment-under-root oracle",
          "Finite adversarial name table enumerated completely for several roots, plus generated unicode and router-produced names.",
          "POSIX path semantics of the host.", "3/C17"),
- "C18": ("exploration", "every payload length x opcode x mask against a reference RFC 6455 codec; all single/double cut positions of frame streams through the real protocol handler",
+ "C18": ("exploration", "every payload length x opcode x mask (and FIN/RSV bit combination) against a reference RFC 6455 codec; all single/double cut positions of fixed frame streams and Hypothesis-drawn streams (bursts, interleaved connections, closes) through the real protocol handler",
          "Length table enumerated (thorough: 0..70000), chunkings enumerated for short streams and generated for long ones; oracle is an independent RFC 6455 encoder/decoder.",
          "The handler is driven with a fake transport/request as RequestFactory does.", "3/C18"),
- "C19": ("exploration", "Hypothesis passwords and compound corruptions of hash strings; independent hashlib.scrypt recomputation oracle",
+ "C19": ("exploration", "Hypothesis passwords and compound corruptions of hash strings; independent hashlib.scrypt recomputation oracle; salt freshness under re-seeded RNG state and across forked workers",
          "Generated passwords and structured corruptions; True is accepted only when an independent scrypt recomputation of the corrupted string's own fields agrees.",
          "scrypt cost bounds the case count (~0.1 s per KDF).", "3/C19"),
  "C20": ("exploration", "Hypothesis rule-based state machine over register/unregister/dispatch on both dispatchers; name->handler reference model",
